@@ -939,8 +939,8 @@ class EqEval:
                 return f
         return None
 
-    def freevar(self, e):
-        key = show(e)[:160]
+    def freevar(self, e, prefix=""):
+        key = prefix + show(e)[:160]
         if key not in self.free:
             self.need = key
             raise _EqUnknown("need")
@@ -1074,6 +1074,15 @@ class EqEval:
             raise _EqUnknown("any() over something else")
         if cal == "core::ops::bit::Not::not":
             return not self.truth(args[0], env)
+        if cal in ("core::ptr::eq", "core::ptr::addr_eq") and len(args) == 2:
+            # identity of the two handles: an opaque condition that implies equal dimensions (and nothing about `==` of the values: NaN)
+            ops = set()
+            for a in args:
+                v = var_of(peel(a))
+                if v in env and isinstance(env[v], tuple) and env[v][0] == "operand":
+                    ops.add(env[v][1])
+            if ops == {0, 1}:
+                return self.freevar(e, "identity:")
         c_ = e.get("callee") or {}
         if c_.get("resolved_local") and self.depth < 3:
             cb = self.facts.body(c_["resolved"])
@@ -1139,6 +1148,8 @@ def eq_truth_table(facts, b):
                 return None, "recursion"
             if not isinstance(r, bool):
                 return None, "result is not Boolean"
+            if any(k.startswith("identity:") and v for k, v in free.items()) and not asg["dimensions"]:
+                continue        # infeasible: the same handle has the same dimensions
             rows.append((asg["dimensions"], asg["values"], free, r))
         if need is not None:
             if need in free_keys or len(free_keys) >= 4:
@@ -1194,10 +1205,22 @@ def r17_eq_fields(facts):
                         elif k == "Cast" and isinstance(n.get("e"), dict):
                             if (n["e"].get("ty") or "") == fl and (n.get("ty") or "") in INTS:
                                 conv = conv or (nb, n, "`%s` casts an element to `%s`" % (show(n)[:50], n.get("ty")))
+            if not conv:
+                # ... nor decided through a distance: |x - y| <= eps is not reflexive on infinities (inf - inf is NaN), and any eps > 0 equates different values
+                for x in callees_closure(facts, b):
+                    for nb in facts.nested(x):
+                        for n in walk(facts.root(nb)):
+                            if n.get("k") == "Call":
+                                cn, rn = callee(n) or "", resolved(n) or ""
+                                if cn.startswith("approx::") or "as approx::" in rn:
+                                    conv = conv or (nb, n, "`%s` decides equality through a distance |x - y| <= eps, which is false for two equal infinities (inf - inf is NaN)" % show(n)[:50])
+                                elif cn in ("core::ops::arith::Sub::sub",) and (n.get("ty") or "") == fl:
+                                    conv = conv or (nb, n, "`%s` subtracts the elements (a distance test is false for two equal infinities: inf - inf is NaN)" % show(n)[:50])
+                            elif n.get("k") == "Binary" and n.get("op") == "Sub" and (n.get("ty") or "") == fl:
+                                conv = conv or (nb, n, "`%s` subtracts the elements (a distance test is false for two equal infinities: inf - inf is NaN)" % show(n)[:50])
             if conv:
                 c.bad(inst + "#numbers", F.loc(conv[0], conv[1]),
-                      "equality compares a representation of the elements, not the numbers: %s (0.0 and -0.0 are equal values with different representations, "
-                      "and a NaN is not equal to itself)" % conv[2])
+                      "equality does not compare the elements as numbers with `==`: %s (values are equal exactly when `==` says so: 0.0 == -0.0, NaN != NaN, inf == inf)" % conv[2])
             else:
                 c.ok(inst + "#numbers", where, "elements are compared as floating-point numbers (no conversion to bits, integers, an ordering or text on the way)")
         rows, why = eq_truth_table(facts, b)
